@@ -117,7 +117,7 @@ CLIENT_TAGS = ["getProperties", "enableBLOB", "newTextVector", "newNumberVector"
 DEVICE_TAGS = ["defTextVector", "defNumberVector", "defSwitchVector", "defLightVector", "defBLOBVector", "setTextVector", "setNumberVector",
                "setSwitchVector", "setLightVector", "setBLOBVector", "delProperty", "message", "getProperties", "pingRequest", "oneLight"]
 POLICIES = ["Never", "Also", "Only"]
-NAMES = ["A", "B", None, "unknown"]
+NAMES = ["A", "B", None, "unknown", ""]
 
 
 def sweep(devs, clis, tags, senders=None):
@@ -213,7 +213,7 @@ def gen_random(rng, n, tags):
                 ops.append(["U", c])
             else:
                 tag = rng.choice(tags)
-                name = rng.choice(["A", "B", "C", None, "unknown"])
+                name = rng.choice(["A", "B", "C", None, "unknown", ""])
                 senders = ["n"] + ["c%d" % (10 + i) for i in range(nc)] + ["d%d" % d for d in devs]
                 ops.append(["S", tag, name, rng.choice(POLICIES) if tag == "enableBLOB" else None, rng.choice(senders)])
         yield {"op": "hist", "ops": ops}
